@@ -168,6 +168,22 @@ CHECKS = {
              "cached prefix, observers pull only through next(self). Does not "
              "decide the values observers return.",
         ref="DESIGN.md §3 C13"),
+    "C14": dict(
+        technique="lazy-view propagation + eager-consumer (forcing) effect "
+                  "analysis over the catalogued transformations, with kind "
+                  "guards and a reviewed site table",
+        category="other",
+        text="Necessary condition (no non-termination by forcing) for the 31 "
+             "catalogued (function, lazy parameter) pairs: every lazy view of "
+             "the parameter (aliases, iterable/iter/deep_copy/LazyList/map/"
+             "filter/zip/enumerate/itertools wrappers, generator expressions, "
+             "nested generators, results of other catalogued "
+             "transformations) reaches no eager consumer outside arms that "
+             "show the parameter is a string/number/function/eager list; "
+             "LazyList's access path (__iter__, __next__, has_ind, "
+             "non-negative __getitem__, open slices) pulls only what is asked "
+             "for. Does not decide the linear pull bound.",
+        ref="DESIGN.md §3 C14"),
     "C15": dict(
         technique="constant folding of the codec alphabets + writer/reader "
                   "table-agreement queries over the encoder and decoder "
